@@ -6,6 +6,7 @@ import Driver.Settings
 import Driver.Dispatcher
 import Driver.Sched
 import Driver.Priority
+import Driver.Classify
 namespace Driver
 
 def dispatch (line : String) : String :=
@@ -13,6 +14,9 @@ def dispatch (line : String) : String :=
   | "xxh" :: rest => (handleXxh rest).getD "bad-op"
   | "pout" :: rest => (handlePout rest).getD "bad-op"
   | "parse" :: rest => (handleParse rest).getD "bad-op"
+  | "classify" :: rest => (handleClassify rest).getD "bad-op"
+  | "describe" :: rest => (handleDescribe rest).getD "bad-op"
+  | "backoff" :: rest => (handleBackoff rest).getD "bad-op"
   | "prio" :: rest => (handlePrio rest).getD "bad-op"
   | "sched" :: rest => (handleSched rest).getD "bad-op"
   | "disp" :: rest => (handleDisp rest).getD "bad-op"
